@@ -696,10 +696,10 @@ func (e *Engine) evalCall(x *Expr, se *SpecEnv) Val {
 		}
 		return mkInt(a.L[0])
 	case "loglen":
-		return mkInt(e.logLen(se.st, x.Args[0].Name))
+		return mkInt(e.logLen(se.st, e.logKey(x.Args[0].Name, se)))
 	case "logarg":
 		// logarg(cb, i, k): argument i of the k-th invocation of callback cb
-		name := x.Args[0].Name
+		name := e.logKey(x.Args[0].Name, se)
 		l, ok := se.st.logs[name]
 		if !ok {
 			l = e.logFromSig(se.st, name)
@@ -1204,4 +1204,13 @@ func (e *Engine) assumeTheory(st *State, pkg string, se *SpecEnv) {
 	for _, n := range names {
 		st.Assume(e.evalBool(e.cs.Axioms[n].Body, se))
 	}
+}
+
+// logKey: call logs are keyed by the root function's callback parameter; a callee's parameter that was passed
+// that callback denotes the same log.
+func (e *Engine) logKey(name string, se *SpecEnv) string {
+	if v, ok := e.lookupName(name, se); ok && v.Fn != nil && v.Fn.Sym != "" {
+		return v.Fn.Sym
+	}
+	return name
 }
